@@ -57,3 +57,20 @@ Require Import GM.proofs.ParseInv GM.proofs.GfmWf.
 Theorem C04_convert_gfm_model_safe_urls : forall xc c src o, unsafe c = false -> bytes_ok src -> ConvertModelX xc c src = Ok o -> Inert o.
 Proof. exact ConvertModelX_safe_inert. Qed.
 Print Assumptions C04_convert_gfm_model_safe_urls.
+
+(* and for the models of the other extension parsers (the URL clause is part of Inert, as above):
+   extension.Footnote - whose renderer writes href values of its own, "#fn:1" / "#fnref:1" -, the
+   heading options WithAttribute / WithAutoHeadingID - where the source chooses attribute values -
+   and extension.Typographer / extension.DefinitionList; every source, no run-time check *)
+Require Import GM.model.FootnoteI GM.proofs.FootnoteWf.
+Theorem C04_convert_footnote_model_safe_urls : forall c src o, unsafe c = false -> bytes_ok src -> ConvertModelFn c src = Ok o -> Inert o.
+Proof. exact ConvertModelFn_safe_inert. Qed.
+Print Assumptions C04_convert_footnote_model_safe_urls.
+Require Import GM.model.HeadingOpts GM.model.HeadingOptsI GM.proofs.HeadingOptsWf.
+Theorem C04_convert_heading_options_safe_urls : forall hc c src o, unsafe c = false -> bytes_ok src -> ConvertModelH hc c src = Ok o -> Inert o.
+Proof. exact ConvertModelH_safe_inert. Qed.
+Print Assumptions C04_convert_heading_options_safe_urls.
+Require Import GM.model.TypoDefParse GM.model.TypoDefI GM.proofs.TypoDefWf.
+Theorem C04_convert_typodef_model_safe_urls : forall tc c src o, unsafe c = false -> bytes_ok src -> ConvertModelTD tc c src = Ok o -> Inert o.
+Proof. exact ConvertModelTD_safe_inert. Qed.
+Print Assumptions C04_convert_typodef_model_safe_urls.
